@@ -27,6 +27,15 @@ def body(ctx):
     if v01:
         ctx.report('outbound-stream', f"{len(v01)} write-path obligations violated, e.g. {str(v01[0])[:250]}; confirmed by the native write-path differential", {'solver_counterexamples': [str(v)[:300] for v in v01[:6]]},
                    c01.NATIVE, inject_into='src/io_loop/mod.rs', profiles=('dev',), hang_is_violation=True, panic_is_violation=True)
+    # a wake-up is the only notice a channel's queue gives (edge-triggered): it is served whatever is already buffered, and a long stall
+    # (several heartbeat intervals without the transport taking a byte) is survived
+    import c20, c17
+    c20.token_range(ctx, prog)
+    hv = []
+    c17.long_stall(ctx, prog, hv)
+    if hv:
+        test, exp_desc = c17.hb_replay('long-stall')
+        ctx.report('heartbeat-long-stall', f"stall spanning several heartbeat intervals: {str(hv[0])[:300]}; native timing scenario: {exp_desc}", {'cex': str(hv[0])[:600]}, test, inject_into='src/io_loop/mod.rs', profiles=('dev',))
     report_registration(ctx, viol)
     if False:
         # the flag that tells allocate_channel whether channels are being polled must follow every de-/re-registration: a channel
